@@ -16,6 +16,7 @@ package http
 import (
 	"bytes"
 	"context"
+	"io"
 	"io/ioutil"
 	"math/rand"
 	"net"
@@ -138,9 +139,20 @@ func (h *Handler) ServeHTTP(response http.ResponseWriter, request *http.Request)
 			return
 		}
 	}
-	data, err := readAll(request.Body, request.ContentLength)
+	// the limit applies to the bytes actually received, also when the length
+	// is not declared (chunked): never read more than one byte beyond it
+	body := io.Reader(request.Body)
+	if request.ContentLength < 0 {
+		body = io.LimitReader(request.Body, int64(h.Service.MaxRequestLength)+1)
+	}
+	data, err := readAll(body, request.ContentLength)
 	if err != nil {
 		h.onError(response, request, err)
+	}
+	if len(data) > h.Service.MaxRequestLength {
+		_ = request.Body.Close()
+		response.WriteHeader(http.StatusRequestEntityTooLarge)
+		return
 	}
 	if err = request.Body.Close(); err != nil {
 		h.onError(response, request, err)
@@ -277,6 +289,11 @@ func (h *Handler) ServeFastHTTP(ctx *fasthttp.RequestCtx) {
 	}
 	serviceContext := h.getFastHTTPServiceContext(ctx)
 	body := ctx.Request.Body()
+	if len(body) > h.Service.MaxRequestLength {
+		// the declared length may be absent (chunked) or wrong
+		ctx.SetStatusCode(fasthttp.StatusRequestEntityTooLarge)
+		return
+	}
 	request := make([]byte, len(body))
 	copy(request, body)
 	result, err := h.Service.Handle(core.WithContext(context.Background(), serviceContext), request)
